@@ -1,0 +1,117 @@
+//! Verification hooks — compiled **only** with `RUSTFLAGS="--cfg ohkami_verif"`.
+//!
+//! Nothing in this module changes behaviour of the framework: it re-exports
+//! items that are public-but-unnameable, and wraps crate-private entry points
+//! (`Request::{init, clear, read}`, `Router::handle`, `Response::send`,
+//! `Session::manage`) so that an external harness can drive them.
+
+use std::sync::atomic::{AtomicBool, AtomicU64, Ordering};
+use std::sync::OnceLock;
+
+/* ---------- H3: clock seam ---------- */
+
+static CLOCK_SET: AtomicBool = AtomicBool::new(false);
+static CLOCK:     AtomicU64  = AtomicU64::new(0);
+
+/// Pin (or un-pin with `None`) the value returned by `ohkami::util::unix_timestamp`.
+pub fn set_clock(unix_secs: Option<u64>) {
+    match unix_secs {
+        Some(t) => {
+            CLOCK.store(t, Ordering::SeqCst);
+            CLOCK_SET.store(true, Ordering::SeqCst);
+        }
+        None => CLOCK_SET.store(false, Ordering::SeqCst),
+    }
+}
+
+#[inline]
+pub(crate) fn fixed_clock() -> Option<u64> {
+    CLOCK_SET.load(Ordering::SeqCst).then(|| CLOCK.load(Ordering::SeqCst))
+}
+
+/* ---------- H6: scheduling points ---------- */
+
+static POINT_CALLBACK: OnceLock<Box<dyn Fn(&'static str) + Send + Sync>> = OnceLock::new();
+
+/// Install the callback invoked at every scheduling point. Can be set once.
+pub fn set_point_callback(f: Box<dyn Fn(&'static str) + Send + Sync>) {
+    let _ = POINT_CALLBACK.set(f);
+}
+
+#[allow(unused)]
+#[inline]
+pub(crate) fn point(id: &'static str) {
+    if let Some(callback) = POINT_CALLBACK.get() {
+        callback(id)
+    }
+}
+
+/* ---------- H1 / H2: routing items, router, connection ---------- */
+
+#[cfg(feature="rt_tokio")]
+pub use native::*;
+
+#[cfg(feature="rt_tokio")]
+mod native {
+    use crate::{Ohkami, Request, Response};
+    use crate::router::r#final::Router;
+    use std::{pin::Pin, sync::Arc};
+
+    pub use crate::ohkami::routing::{Routing, HandlerSet, ByAnother, Dir};
+    pub use crate::ohkami::routing::verif_hooks::{DynItem, DynRouting};
+
+    /// The finalized router of an `Ohkami`, exactly what `howl` serves with.
+    #[derive(Clone)]
+    pub struct VerifRouter(Arc<Router>);
+    impl VerifRouter {
+        pub fn from(o: Ohkami) -> Self {
+            let (router, _) = o.into_router().finalize();
+            Self(Arc::new(router))
+        }
+
+        pub async fn handle(&self, req: &mut Request) -> Response {
+            self.0.handle(req).await
+        }
+    }
+
+    /// A pinned `Request` with the crate-private lifecycle exposed.
+    pub struct RawConn(Pin<Box<Request>>);
+    impl RawConn {
+        pub fn init() -> Self {
+            Self(Box::pin(Request::init(crate::util::IP_0000)))
+        }
+
+        pub fn clear(&mut self) {
+            unsafe {self.0.as_mut().get_unchecked_mut()}.clear()
+        }
+
+        pub async fn read(
+            &mut self,
+            stream: &mut (impl tokio::io::AsyncRead + Unpin)
+        ) -> Result<Option<()>, Response> {
+            self.0.as_mut().read(stream).await
+        }
+
+        pub fn request(&self) -> &Request {
+            &*self.0
+        }
+
+        pub fn request_mut(&mut self) -> &mut Request {
+            unsafe {self.0.as_mut().get_unchecked_mut()}
+        }
+    }
+
+    /// `Response::send`; returns whether the connection was upgraded.
+    pub async fn send(
+        res:  Response,
+        conn: &mut (impl tokio::io::AsyncWrite + Unpin)
+    ) -> bool {
+        !res.send(conn).await.is_none()
+    }
+
+    /// The real `Session::new(..).manage()` over a real TCP connection.
+    pub async fn serve_connection(router: &VerifRouter, conn: tokio::net::TcpStream) {
+        let ip = conn.peer_addr().map(|a| a.ip()).unwrap_or(crate::util::IP_0000);
+        crate::session::Session::new(router.0.clone(), conn, ip).manage().await
+    }
+}
